@@ -504,6 +504,19 @@ pub fn claims(cex: &Value) -> Result<String, String> {
         }
       }
     }
+    // optional members with "default-looking" values keep their presence through the claims (false, empty object, ...)
+    {
+      let mut v = full.clone();
+      v["nonTransferable"] = serde_json::json!(false);
+      if let Ok(c) = Credential::<Object>::from_json_value(v) {
+        let claims = c.serialize_jwt(None).unwrap();
+        match validator.verify_signature::<_, Object>(&sign_jwt(&claims, Some(&kid), None, &k), &[issuer.clone()], &JwsVerificationOptions::default()) {
+          Ok(d) if d.credential == c => {}
+          Ok(d) => log.push(format!("[roundtrip] credential with nonTransferable=false comes back with nonTransferable={:?}", d.credential.non_transferable)),
+          Err(e) => log.push(format!("[roundtrip] own claims rejected: {e}")),
+        }
+      }
+    }
     // consistency table
     let c: Credential = Credential::from_json_value(full.clone()).unwrap();
     let base: serde_json::Value = serde_json::from_str(&c.serialize_jwt(None).unwrap()).unwrap();
